@@ -131,10 +131,8 @@ def processing_instruction(scanner: Scanner):
 
 def is_special(special: dict, name: str, source: str, start: int, end: int):
     "Check if given tag name should be considered as special"
-    # NB: HTML tag names are case-insensitive: `<SCRIPT>` is a script as well
-    key = name if name in special else name.lower()
-    if key in special:
-        type_values = special[key]
+    if name in special:
+        type_values = special[name]
         if not isinstance(type_values, list):
             return True
 
